@@ -83,6 +83,13 @@ def neg_cases(tier, seed):
         else:
             b = b"".join(rng.choice(toks) for _ in range(rng.randrange(1, 9)))
         cases.append({"id": len(cases) + 1, "hdr": {"hex": b.hex()}, "abs": {"k": "garbage"}})
+    # weights just outside the qvalue grammar, around every coding (no claim beyond "no panic")
+    bad_q = ["0.-5", "0.5.", "0.+1", "0. 5", ".5", "1.001", "0.1234", "1.0000", "-0", "+1", "0x1", "1e0", "0.5;", "0..5", "0,5",
+             "0.\t5", "2", "00.5", "0.05 ", "", " ", "q", "1.", "0.", "0.0.0", "0.!", "0./", "0.:", "0.a", "\x7f"]
+    for bq in bad_q:
+        for c in ("gzip", "identity", "*", "br"):
+            for pre in ("", "gzip, ", "identity;q=0.5, "):
+                cases.append({"id": 0, "hdr": {"hex": (pre + c + ";q=" + bq).encode().hex()}, "abs": {"k": "garbage"}})
     # repeated header lines (only the first is consulted by the code; no claim)
     for _ in range(200):
         cases.append({"id": len(cases) + 1, "hdr": "gzip", "hdr2": "identity;q=0", "abs": {"k": "garbage"}})
@@ -207,6 +214,12 @@ def stream_cases(prop, tier, seed, sched_cases=()):
                         add(cap=cap, level=level, ae=hdr, abs=a, method=method, parts=parts,
                             prog=[["write", 5], ["flush", 0], ["write", 40], ["drop", 0]], payload=rng.choice(["ramp", "zeros", "rand"]),
                             pseed=rng.randrange(1 << 30), extra=1)
+        # repeated Accept-Encoding field lines (should_gzip consults the first; no abstract view)
+        for l1, l2 in (("identity", "gzip"), ("gzip", "identity"), ("gzip;q=0", "gzip"), ("br", "*"), ("", "gzip"), ("*;q=0", "gzip")):
+            for level in (0, 6):
+                for method in ("GET", "HEAD"):
+                    add(cap=7, level=level, ae=l1, ae2=l2, abs={"k": "garbage"}, method=method, parts=rng.random() < 0.5,
+                        prog=[["write", 20], ["drop", 0]], extra=1)
         # sequences of builder calls: only the last with_gzip_level counts
         for hdr, a in AE_CHOICES[:6]:
             for seq in ([0, 5], [0, 0, 9], [7, 0], [3, 0, 1], [9, 1], [0, 6, 0]):
